@@ -3,12 +3,12 @@ CONSTANTS
   Thr = {t1}
   PreCreated = 1
   Kinds = {"spawn"}
-  TaskStop = TRUE
+  TaskStop = FALSE
   AtomicCalls = TRUE
   EagerJoin = TRUE
   MaxCmds = 3
   MaxSys = 2
-  Codes <- CodesWithNeg
+  Codes = {0, 7}
   AllowBusy = FALSE
   FifoLocalQueue = TRUE
   StopEndsLoop = TRUE
@@ -25,10 +25,10 @@ CONSTANTS
   BlockOnExact = TRUE
   SelfSend = FALSE
   SelfSendViaChannel = TRUE
-  NegCodeIsErr = FALSE
+  NegCodeIsErr = TRUE
   CtrlBatch = 0
-  StartIdle = FALSE
-  EveryExitStops = TRUE
+  StartIdle = TRUE
+  EveryExitStops = FALSE
   RxDropAtLoopEnd = TRUE
 SPECIFICATION Spec
 VIEW View
